@@ -189,6 +189,13 @@ def job(j):
     return n, res, ne
 
 
+def sample_setting(sid, transport, seed):
+    cfg = list(settings_configs())[0]
+    n, vio, ne = run_setting(cfg, sid, transport, False, seed)
+    return dict(config=cfg['name'], setting=sid, transport=transport, values_written_and_read_back=n, distinct_encodings=ne,
+                violations=[v[0] for v in vio])
+
+
 def run(tier, seed, rep):
     jobs = []
     for cfg in settings_configs():
@@ -219,8 +226,7 @@ def run(tier, seed, rep):
                      'boundary values for every setting; group settings: every field at its bounds x schedule types; '
                      'each write is checked by diffing the device register file and write log, then read back',
                state_definition='states = distinct register encodings written; transitions = write+read-back round trips',
-               samples=[dict(setting='grid_export_limit', value=65534, transport='udp'),
-                        dict(setting='eco_mode_1_switch', value=-1, prior='1234')])
+               samples=[sample_setting('grid_export_limit', 'udp', seed), sample_setting('eco_mode_1_switch', 'tcp', seed)])
     return dict(level='model_checking', coverage=cov,
                 assumptions=['device model: function 6/16 store registers, AA55 0239 stores registers',
                              'values whose encoding is the no-value sentinel (0xFFFF / 0xFFFFFFFF) are outside the domain',
